@@ -53,18 +53,30 @@ func ReaderParamEncoder(addr string) jsonrpc.Option {
 type waitReadCloser struct {
 	io.ReadCloser
 	wait chan struct{}
+
+	// wait is closed on the first read error (incl. EOF) or Close, whichever comes first;
+	// reading again after EOF or closing after EOF must not close it a second time
+	closeWait sync.Once
+
+	// first read error, repeated on later reads: once wait is closed the upload request
+	// finishes and its body may no longer be read
+	err error
 }
 
 func (w *waitReadCloser) Read(p []byte) (int, error) {
+	if w.err != nil {
+		return 0, w.err
+	}
 	n, err := w.ReadCloser.Read(p)
 	if err != nil {
-		close(w.wait)
+		w.err = err
+		w.closeWait.Do(func() { close(w.wait) })
 	}
 	return n, err
 }
 
 func (w *waitReadCloser) Close() error {
-	close(w.wait)
+	w.closeWait.Do(func() { close(w.wait) })
 	return w.ReadCloser.Close()
 }
 
